@@ -128,8 +128,10 @@ impl Add for I64 {
         match (self, rhs) {
             (Num(lhs), Num(rhs)) => match lhs.checked_add(rhs) {
                 Some(n) => Num(n),
+                // overflow implies that both summands have the same sign,
+                // which is the sign of the exact result
                 None => {
-                    if lhs > 0 && rhs > 0 || lhs < 0 && rhs < 0 {
+                    if lhs > 0 {
                         PlusInf
                     } else {
                         MinusInf
